@@ -190,25 +190,26 @@ class SymSet:
         self.seq = seq
 
     def distinct_count(self):
+        """number of distinct elements under CPython's set semantics (hash equal and __eq__)"""
         s = self.seq
-        if s.abstract:
-            # each abstract family may declare its elements pairwise distinct under (hash, eq)
-            total = 0
-            for seg in s.segs:
-                if isi(seg, Gen):
-                    if not getattr(seg.base, "distinct", False):
-                        raise Unsupported("len(set()) over an abstract sequence not known to be duplicate free")
-                    total = total + seq_len(Seq([seg]))
-                else:
-                    raise Unsupported("len(set()) over mixed abstract/concrete elements")
-            return total
-        items = s.concrete_list()
+        gens = [seg for seg in s.segs if isi(seg, Gen)]
+        items = [seg[1] for seg in s.segs if not isi(seg, Gen)]
         total = 0
+        for g in gens:
+            # each abstract family declares its own elements pairwise distinct under (hash, eq): wf, "no node lists a
+            # child twice"; two different families in one set are not supported
+            if not getattr(g.base, "distinct", False):
+                raise Unsupported("len(set()) over an abstract sequence not known to be duplicate free")
+            total = total + seq_len(Seq([g]))
+        if len({g.base.name for g in gens}) > 1 or len(gens) > 1:
+            raise Unsupported("len(set()) over two abstract segments")
         for k, e in enumerate(items):
             dup = False
             for j in range(k):
-                same = _py_set_same(items[j], e)
-                dup = lift(z3.Or(to_bterm(dup), to_bterm(same)))
+                dup = lift(z3.Or(to_bterm(dup), to_bterm(_py_set_same(items[j], e))))
+            for g in gens:
+                hit = seq_any(Seq([g]), lambda x, e=e: _py_set_same(x, e))
+                dup = lift(z3.Or(to_bterm(dup), to_bterm(hit)))
             total = total + site(dup, 0, 1)
         return total
 
